@@ -63,6 +63,9 @@ pub struct Scene {
     pub ids: Vec<usize>,            // body ids present
     pub boxes: Vec<WBox>,           // world box of each body at q0
     pub rich: Vec<bool>,
+    /// Some((a, b, gap)): body a's box is aligned with ITS OWN frame (tight local bounding box, centred where its
+    /// world box is) and the small body b hovers `gap` above its +y face (in a's frame)
+    pub aligned_pair: Option<(usize, usize, f64)>,
 }
 
 impl Scene {
@@ -74,7 +77,7 @@ impl Scene {
         for k in 0..nenv { ids.push(ENV0 + k); }
         let boxes = ids.iter().enumerate().map(|(i, _)| WBox { c: [5.0 * i as f64, 0.0, 0.0], h: [0.1, 0.1, 0.1] }).collect();
         let rich = ids.iter().map(|_| false).collect();
-        Scene { ids, boxes, rich }
+        Scene { ids, boxes, rich, aligned_pair: None }
     }
     pub fn idx(&self, id: usize) -> usize { self.ids.iter().position(|x| *x == id).expect("body present") }
     /// put body b next to body a along +y with the given gap (negative: overlapping)
@@ -93,16 +96,40 @@ pub struct Built {
 }
 
 /// Build the RobotBody so that at joint vector q0 (poses from `kin`) every body sits in its world box.
+/// mesh of a box given directly in the body's own frame (tight local bounding box)
+fn aligned_mesh(c_local: [f64; 3], h: [f64; 3], rich: bool) -> TriMesh {
+    let (v, t) = box_vertices(&WBox { c: c_local, h }, rich);
+    TriMesh::new(v.iter().map(|p| Point3::new(p[0] as f32, p[1] as f32, p[2] as f32)).collect(), t).expect("box mesh")
+}
+
 pub fn build(scene: &Scene, kin: &dyn Kinematics, q0: &Joints, base_pose: &Isometry3<f64>, safety: SafetyDistances) -> RobotBody {
     let poses = kin.forward_with_joint_poses(q0);
-    let joint_meshes: [TriMesh; 6] = std::array::from_fn(|i| {
-        let k = scene.idx(i);
-        local_mesh(&scene.boxes[k], scene.rich[k], &poses[i])
-    });
-    let tool = if scene.ids.contains(&TOOL) { let k = scene.idx(TOOL); Some(local_mesh(&scene.boxes[k], scene.rich[k], &poses[5])) } else { None };
+    let pose_of = |id: usize| -> Option<Isometry3<f64>> { if id < 6 { Some(poses[id]) } else if id == TOOL { Some(poses[5]) } else if id == BASE { Some(*base_pose) } else { None } };
+    // the aligned pair (if any and if body a is part of the robot): a's mesh directly in its frame, b placed above it
+    let mut override_mesh: Vec<(usize, TriMesh)> = Vec::new();
+    let mut boxes = scene.boxes.clone();
+    if let Some((a, b, gap)) = scene.aligned_pair {
+        if let Some(pa) = pose_of(a) {
+            let (ia, ib) = (scene.idx(a), scene.idx(b));
+            let wc = boxes[ia].c;
+            let cl = pa.inverse().transform_point(&Point3::new(wc[0], wc[1], wc[2]));
+            let h = boxes[ia].h;
+            override_mesh.push((a, aligned_mesh([cl.x, cl.y, cl.z], h, scene.rich[ia])));
+            let hb = boxes[ib].h;
+            let reach = (hb[0] * hb[0] + hb[1] * hb[1] + hb[2] * hb[2]).sqrt();
+            let above = pa.transform_point(&Point3::new(cl.x, cl.y + h[1] + gap + reach, cl.z));
+            boxes[ib].c = [above.x, above.y, above.z];
+        }
+    }
+    let mesh_for = |id: usize, pose: &Isometry3<f64>| -> TriMesh {
+        if let Some((_, m)) = override_mesh.iter().find(|(x, _)| *x == id) { return m.clone(); }
+        let k = scene.idx(id);
+        local_mesh(&boxes[k], scene.rich[k], pose)
+    };
+    let joint_meshes: [TriMesh; 6] = std::array::from_fn(|i| mesh_for(i, &poses[i]));
+    let tool = if scene.ids.contains(&TOOL) { Some(mesh_for(TOOL, &poses[5])) } else { None };
     let base = if scene.ids.contains(&BASE) {
-        let k = scene.idx(BASE);
-        Some(BaseBody { mesh: local_mesh(&scene.boxes[k], scene.rich[k], base_pose), base_pose: base_pose.cast() })
+        Some(BaseBody { mesh: mesh_for(BASE, base_pose), base_pose: base_pose.cast() })
     } else { None };
     let mut env = Vec::new();
     let mut k = 0;
@@ -110,7 +137,7 @@ pub fn build(scene: &Scene, kin: &dyn Kinematics, q0: &Joints, base_pose: &Isome
         let i = scene.idx(ENV0 + k);
         // environment objects get a non-trivial own pose as well
         let pose = Isometry3::new(nalgebra::Vector3::new(0.3 * k as f64, -0.2, 0.1), nalgebra::Vector3::new(0.0, 0.0, 0.4 * (k as f64 + 1.0)));
-        env.push(CollisionBody { mesh: local_mesh(&scene.boxes[i], scene.rich[i], &pose), pose: pose.cast() });
+        env.push(CollisionBody { mesh: local_mesh(&boxes[i], scene.rich[i], &pose), pose: pose.cast() });
         k += 1;
     }
     RobotBody { joint_meshes, tool, base, collision_environment: env, safety }
